@@ -259,7 +259,7 @@ Inductive effect :=
 | Div (a b : Z)            (* integer division a / b executed *)
 | Index (size i : Z)       (* element i of a buffer of [size] elements accessed *)
 | Write (n : Z)            (* n bytes handed to the socket *)
-| Opaque.                  (* behaviour from here on is outside the model (inflate on a damaged stream) *)
+| Opaque.                  (* behaviour from here on is outside the model (a file-transfer reply to a peer that stopped reading) *)
 
 Inductive prog (A : Type) : Type :=
 | Ret : A -> prog A
@@ -871,7 +871,8 @@ Section Handlers.
     match fuel with
     | O => ([], Some s, r, false)
     | S f =>
-      if s_closed s then ([], Some s, r, true) else
+      (* closed, or the socket is gone (cl->sock == -1): the client is reaped *)
+      if s_closed s || r_dead r then ([], Some s, r, true) else
       let go r1 :=
           let ty := match r_avail r1 with b :: _ => b | [] => -1 end in
           let '(v, r2, e) := process_message s r1 in
